@@ -155,6 +155,12 @@ def zoo():
   z.append(_mergeable('TopKConfusionMatrixAggFn-multioutput',
                       lambda: _AggState(cl.TopKConfusionMatrixAggFn(metrics=metrics, input_type='multiclass-multioutput', average='micro', vocab=vocab, k_list=[1, 2])),
                       mo, lambda a: _norm(a.result()), as_array=False))
+  # a k beyond the longest prediction of some batches (their rows are short), reached in others; macro as well
+  mo2 = [(['a'], ['b']), (['b'], ['b']), (['a', 'c'], ['c', 'b', 'a']), (['c'], ['a']), (['b', 'a'], ['c', 'a', 'b'])]
+  for avg in ('micro', 'macro'):
+    z.append(_mergeable(f'TopKConfusionMatrixAggFn-multioutput-k-beyond-short-rows-{avg}',
+                        lambda avg=avg: _AggState(cl.TopKConfusionMatrixAggFn(metrics=metrics, input_type='multiclass-multioutput', average=avg, vocab=vocab, k_list=[1, 3])),
+                        mo2, lambda a: _norm(a.result()), as_array=False))
   z.append(_mergeable('SamplewiseClassification',
                       lambda: cl.SamplewiseClassification(metrics=metrics, input_type='multiclass-multioutput', vocab=vocab),
                       mo, lambda a: _norm(a.result()), as_array=False))
@@ -188,3 +194,30 @@ def replay_result_after_update(p):
   return dict(violated=second != ref,
               detail=f'ThresholdedRetrieval(metrics=[{metric!r}]): result() after one batch {first}; after a second batch the state that had '
                      f'been read reports {second}, a never-read state with the same two batches {ref}')
+
+
+def replay_frequency_merge(p):
+  """Replays a counterexample of "merging adds the count of EVERY n-gram" on real TopKWordNGrams states with as many distinct
+  1-grams as the solver's model has (every word once on each side, the two vocabularies disjoint)."""
+  w = p.get('witness') or {}
+  k, ns, no = w.get('k'), w.get('distinct_self'), w.get('distinct_other')
+  if not all(isinstance(x, int) for x in (k, ns, no)) or k < 1 or ns < 0 or no < 0 or ns + no > 300000:
+    return dict(violated=False, detail='witness outside the replayable domain')
+  def word(i):
+    s = ''
+    i += 1
+    while i:
+      i, r = divmod(i - 1, 26)
+      s = chr(97 + r) + s
+    return 'w' + s
+  a, b = tx.TopKWordNGrams(k=k, n=1), tx.TopKWordNGrams(k=k, n=1)
+  if ns:
+    a.add([' '.join(word(i) for i in range(ns))])
+  if no:
+    b.add([' '.join(word(ns + i) for i in range(no))])
+  before_a, before_b = dict(a.state.counter), dict(b.state.counter)
+  a.merge(b)
+  after = dict(a.state.counter)
+  lost = [g for g in set(before_a) | set(before_b) if after.get(g, 0) != before_a.get(g, 0) + before_b.get(g, 0)]
+  return dict(violated=bool(lost), detail=f'TopKWordNGrams(k={k}): a state with {ns} distinct 1-grams merged with one with {no}: '
+              f'{len(lost)} counts are not the sum of the two sides (e.g. {sorted(lost)[:3]}); {len(after)} n-grams are left of {len(set(before_a) | set(before_b))}')
